@@ -200,14 +200,13 @@ A `make`, index, slice or destination-size site that an idiom or the allow list 
 accepted *for the size / index expression that was reviewed*.  The expressions are regenerated
 and compared here: editing one (a scratch buffer of a fixed size instead of one sized from the
 packet, say) resurfaces the site for review even though the new form may look harmless to the
-idioms. -/
+idioms.  Index / slice operations that the range analysis proves in range on every run
+(`Generated.C09.derivedSites`, round D) are not part of this list: they are re-proved, not
+reviewed, so renaming their operands or moving them into a helper changes nothing here. -/
 theorem C09_accepted_sizes_reviewed :
     XmppModel.Generated.C09.acceptedSizes = [
   ("xmpp.(*stanzaEncoder).EncodeToken", "make", "make([]xml.Attr, 0, len(tok.Attr) + 2)"),
   ("xmpp.(*stanzaEncoder).EncodeToken", "make", "make([]xml.Attr, 0, len(tok.Attr))"),
-  ("xmpp.(*Session).SendIQ", "index(allow)", "start.Attr[idx]"),
-  ("xmpp.(*Session).SendMessage", "index(allow)", "start.Attr[idx]"),
-  ("xmpp.(*Session).SendPresence", "index(allow)", "start.Attr[idx]"),
   ("disco.walkItem", "index(allow)", "items[itemIdx]"),
   ("disco.walkItem", "slice(allow)", "items[last + 1:]"),
   ("disco.appendItems", "index(allow)", "items[itemIdx]"),
@@ -217,10 +216,7 @@ theorem C09_accepted_sizes_reviewed :
   ("ibb.handlePayload", "slice(allow)", "data[:n]"),
   ("attr.randomID", "make(allow)", "make([]byte, (n / 2) + (n & 1))"),
   ("attr.randomID", "slice(allow)", "fmt.Sprintf(\"%x\", b)[:n]"),
-  ("marshal.(*elementWriter).EncodeToken", "make", "make([]xml.Attr, 0, len(ew.start.Attr) + len(tok.Attr))"),
-  ("mux.(*bufReader).Token", "index(allow)", "r.buf[o]"),
-  ("roster.(*itemMarshaler).Token", "index(allow)", "m.items[0]"),
-  ("roster.(*itemMarshaler).Token", "slice(allow)", "m.items[1:]")] := by decide +kernel
+  ("marshal.(*elementWriter).EncodeToken", "make", "make([]xml.Attr, 0, len(ew.start.Attr) + len(tok.Attr))")] := by decide +kernel
 
 /-! ## Handler locks and the transport; request contexts
 
@@ -313,6 +309,90 @@ theorem C09_pending_request_never_wedges_serve :
     intro p hp aw inbox
     simp only [waitLocksOk, Bool.and_eq_true, List.all_eq_true] at h
     exact C09_disjoint_locks_serve_finishes _ _ (h.2 p hp) aw inbox
+
+/-! ### Channel waits on the serve goroutine
+
+A handler can also wait on a channel (history hands a result to the iterator, ibb hands a new
+stream to `Accept` / `Expect`, muc hands the self-presence to a pending join, receipts signals
+the waiting sender).  A channel operation that can block without an alternative is, in the
+terms of the model above, a resource the serve goroutine needs and that - in the worst case -
+only a local call provides which is itself waiting for the peer: a member of both sets.  The
+operations reachable from the handlers are regenerated with the way each wait can end
+(`harness/c09/chanfacts.go`: select with default / with a second communication, send on a
+channel every `make` of which is buffered, close, range over a channel closed by a goroutine
+the function started); no names are consumed. -/
+
+def chanKindOk (k : String) : Bool :=
+  k == "default" || k == "escape" || k == "buffered" || k == "close" || k == "producer"
+
+/-- the operations of package `pkg` that can block with no alternative, as resources -/
+def blockingOps (ops : List (String × String × String)) (pkg : String) : List String :=
+  (ops.filter fun o => o.1 == pkg && !chanKindOk o.2.2).map fun o => "chan:" ++ o.2.1
+
+def serveChanOpsOk : Option (List (String × String × String)) → Bool
+  | some l => l.any (fun o => o.2.2 == "escape") && l.any (fun o => o.2.2 == "buffered") &&
+      l.all fun o => chanKindOk o.2.2
+  | none => false
+
+/-- Every channel operation that can run on the serve goroutine can be left without the help of
+a call that waits for the peer (and the extraction found the hand-overs: some select with an
+alternative, some buffered signal).  Re-decided on every run. -/
+theorem C09_serve_channel_waits_escape :
+    serveChanOpsOk XmppModel.Generated.C09.serveChanOps = true := by
+  decide +kernel
+
+theorem C09_blocking_ops_nil_of_all_ok {ops : List (String × String × String)}
+    (h : ops.all (fun o => chanKindOk o.2.2) = true) (pkg : String) : blockingOps ops pkg = [] := by
+  simp only [blockingOps, List.map_eq_nil_iff, List.filter_eq_nil_iff]
+  intro o ho
+  have := List.all_eq_true.mp h o ho
+  simp [this]
+
+/-- Locks and channel waits together, for the regenerated facts of every handler package: with
+the blocking channel operations counted as resources on both sides, the serve goroutine still
+reads every input to its end, whether or not a request is pending. -/
+theorem C09_pending_request_never_wedges_serve_channels :
+    ∃ l ops, XmppModel.Generated.C09.waitLocks = some l ∧
+      XmppModel.Generated.C09.serveChanOps = some ops ∧
+      ∀ p ∈ l, ∀ (aw : Bool) (inbox : List Msg),
+        finished (run (p.2.1 ++ blockingOps ops p.1) (p.2.2 ++ blockingOps ops p.1)
+          (measure (p.2.2 ++ blockingOps ops p.1) ⟨aw, none, inbox⟩) ⟨aw, none, inbox⟩) = true := by
+  have hc := C09_serve_channel_waits_escape
+  obtain ⟨l, hl, hfin⟩ := C09_pending_request_never_wedges_serve
+  cases ho : XmppModel.Generated.C09.serveChanOps with
+  | none => rw [ho] at hc; simp [serveChanOpsOk] at hc
+  | some ops =>
+    rw [ho] at hc
+    simp only [serveChanOpsOk, Bool.and_eq_true] at hc
+    refine ⟨l, ops, hl, rfl, ?_⟩
+    intro p hp aw inbox
+    rw [C09_blocking_ops_nil_of_all_ok hc.2 p.1]
+    simpa using hfin p hp aw inbox
+
+/-- The converse, for any facts: a channel operation of a package that can block with no
+alternative is a shared resource, so with a call waiting the first handler stanza stops the
+serve goroutine for ever (instance of `C09_shared_lock_wedges`). -/
+theorem C09_blocking_channel_wait_wedges (held acq : List String)
+    (ops : List (String × String × String)) (pkg : String) (o : String × String × String)
+    (ho : o ∈ ops) (hp : o.1 = pkg) (hk : chanKindOk o.2.2 = false) (rest : List Msg) :
+    let h := held ++ blockingOps ops pkg
+    let a := acq ++ blockingOps ops pkg
+    wedged h a (run h a (a.length + 1) ⟨true, none, .stanza :: rest⟩) = true ∧
+      (run h a (a.length + 1) ⟨true, none, .stanza :: rest⟩).inbox = rest := by
+  intro h a
+  have hm : ("chan:" ++ o.2.1) ∈ blockingOps ops pkg := by
+    simp only [blockingOps, List.mem_map, List.mem_filter]
+    exact ⟨o, ⟨ho, by simp [hp, hk]⟩, rfl⟩
+  exact C09_shared_lock_wedges h a ("chan:" ++ o.2.1)
+    (List.mem_append_right _ hm) (List.mem_append_right _ hm) rest
+
+-- non-vacuity: a bare send in a handler is a blocking operation and wedges; the same facts with
+-- an escape do not
+example : blockingOps [("history", "send", "blocking"), ("ibb", "send", "escape")] "history" = ["chan:send"] := by
+  decide
+example : blockingOps [("history", "send", "escape"), ("ibb", "send", "escape")] "history" = [] := by decide
+example : serveChanOpsOk (some [("history", "send", "blocking"), ("ibb", "send", "escape"), ("r", "send", "buffered")]) = false := by
+  decide
 
 end WaitFor
 
